@@ -141,6 +141,26 @@ impl<'tcx> Dumper<'tcx> {
         self.tcx.def_path_str_with_args(def_id, args)
     }
 
+    /// byte offsets of the fields of a monomorphic tuple / struct in memory (for decoding constants), and its size
+    fn field_offsets(&self, t: Ty<'tcx>, n: usize) -> (J, J) {
+        if t.has_non_region_param() || t.has_aliases() {
+            return (J::Null, J::Null);
+        }
+        match self.tcx.layout_of(TypingEnv::fully_monomorphized().as_query_input(t)) {
+            Ok(l) => {
+                let mut v = Vec::new();
+                if l.fields.count() != n {
+                    return (J::Null, J::Null);
+                }
+                for i in 0..n {
+                    v.push(jint(l.fields.offset(i).bytes() as i128));
+                }
+                (jarr(v), jint(l.size.bytes() as i128))
+            }
+            Err(_) => (J::Null, J::Null),
+        }
+    }
+
     // ---------------------------------------------------------------- types
     fn ty(&mut self, t: Ty<'tcx>) -> usize {
         if let Some(&i) = self.ty_ids.get(&t) {
@@ -204,7 +224,8 @@ impl<'tcx> Dumper<'tcx> {
             }
             ty::Tuple(elems) => {
                 let v: Vec<J> = elems.iter().map(|e| jint(self.ty(e) as i128)).collect();
-                jobj(vec![("k", jstr("tuple")), ("elems", jarr(v)), ("s", jstr(s))])
+                let (offs, size) = self.field_offsets(t, elems.len());
+                jobj(vec![("k", jstr("tuple")), ("elems", jarr(v)), ("offsets", offs), ("size", size), ("s", jstr(s))])
             }
             ty::Adt(adt, args) => {
                 let mut variants = Vec::new();
@@ -240,8 +261,15 @@ impl<'tcx> Dumper<'tcx> {
                 } else {
                     "union"
                 };
+                let (offs, size) = if adt.is_struct() {
+                    self.field_offsets(t, adt.non_enum_variant().fields.len())
+                } else {
+                    (J::Null, J::Null)
+                };
                 jobj(vec![
                     ("k", jstr("adt")),
+                    ("offsets", offs),
+                    ("size", size),
                     ("def", jstr(self.path(adt.did()))),
                     ("krate", jstr(self.krate_of(adt.did()))),
                     ("adt_kind", jstr(kind)),
